@@ -108,6 +108,10 @@ class Face(ElementBase):
         self.edges.reverse()
         self.edges = [self.edges[i] for i in (1, 2, 3, 0)]
 
+        # every edge now runs from its former end to its former start
+        for edge in self.edges:
+            edge.reverse()
+
         return self
 
     def copy(self) -> "Face":
